@@ -1072,6 +1072,10 @@ func (g *whG) workload(combo string) *wlP {
 				if g.p(60) {
 					p.StratType = "Recreate"
 					p.StratRU = nil
+					if g.p(70) {
+						// the state BatchRelease.Initialize leaves behind: taken over, paused, Recreate
+						p.CtlInfo, p.Paused = true, true
+					}
 				}
 			case 1: // blue-green
 				p.OrigStrat = `{"maxSurge":"25%"}`
